@@ -155,6 +155,8 @@ func (t *TypeExpr) String() string {
 		return "*" + t.Elem.String()
 	case "slice":
 		return "[]" + t.Elem.String()
+	case "seq":
+		return "seq[" + t.Elem.String() + "]"
 	case "map":
 		return "map[" + t.Key.String() + "]" + t.Elem.String()
 	}
@@ -330,6 +332,19 @@ func (p *sparser) parseType() (*TypeExpr, error) {
 	if t.k != tIdent {
 		return nil, fmt.Errorf("expected type at %d in %q", t.pos, p.src)
 	}
+	if t.s == "seq" {
+		if err := p.expectOp("["); err != nil {
+			return nil, err
+		}
+		e, err := p.parseType()
+		if err != nil {
+			return nil, err
+		}
+		if err := p.expectOp("]"); err != nil {
+			return nil, err
+		}
+		return &TypeExpr{Kind: "seq", Elem: e}, nil
+	}
 	if t.s == "map" {
 		if err := p.expectOp("["); err != nil {
 			return nil, err
@@ -394,7 +409,12 @@ func (p *sparser) parseOr() (Expr, error) {
 	}
 	for p.isOp("||") {
 		p.next()
-		r, err := p.parseAndE()
+		var r Expr
+		if p.isIdent("forall") || p.isIdent("exists") {
+			r, err = p.parseQuant()
+		} else {
+			r, err = p.parseAndE()
+		}
 		if err != nil {
 			return nil, err
 		}
